@@ -1,7 +1,7 @@
 """C06 - NTT is the discrete Fourier transform over the field; INTT is its inverse."""
 ID = "C06"
 GEN_TAGS = ["BFieldGen"]
-PROOF_TARGETS = ["proofs/NttProofs.vo"]
+PROOF_TARGETS = ["proofs/NttNoswap.vo"]
 PROPS_FILE = "props/C06.v"
 EXTRACT = "extract/ExtractC06.vo"
 ORACLE = ("gen_c06", "c06.ml")
@@ -13,17 +13,29 @@ P = 2**64 - 2**32 + 1
 TRUSTED = [
     "Coq 8.16.1 kernel and its bytecode VM (vm_compute for the 34-entry root table and Lucas.v); no native_compute",
     "tools/rs2v.py translator (PRIMITIVE_ROOTS table, BFieldElement straight-line operators) and coq/lib/Word.v",
-    "extraction: ExtrOcamlBasic + ExtrOcamlZBigInt, OCaml 4.13.1, zarith 1.12",
+    "extraction: ExtrOcamlBasic + ExtrOcamlZBigInt plus one directive of coq/extract/ExtractC06.v (Z.pow -> zarith power), "
+    "OCaml 4.13.1, zarith 1.12",
     "correspondence harness (harness/src/bin/c06.rs), oracle driver (ocaml/c06.ml), case generator (tools/props/c06.py)",
-    "modelled by hand, tied by correspondence only: all of ntt.rs (coq/model/Ntt.v: swap loop on a functional array, "
-    "butterfly stages as block-wise list traversals, noswap variants, length checks as None), mod_pow / inverse loops (C01)",
-    "verified through the translator: PRIMITIVE_ROOTS (roots_exact_order is re-proved on the regenerated table), "
-    "BFieldElement add/sub/mul/new (C01 lemmas)",
-    "XFieldElement enters only through xadd/xsub/xscale (component-wise base-field operations of coq/model/XField.v)",
+    "modelled by hand, tied by correspondence only: all of ntt.rs (coq/model/Ntt.v: swap loop run literally on a functional "
+    "array, butterfly stages as block-wise list traversals with the running twiddle threaded as in the code, noswap "
+    "variants with the bit-reversed twiddle table built by the array loop, length checks / unwraps as None), and the "
+    "mod_pow / inverse loops of C01 that the twiddles go through",
+    "verified through the translator: PRIMITIVE_ROOTS (C06_roots_table / C06_roots_table_keys are re-proved on the "
+    "regenerated table on every run), BFieldElement new/add/sub/mul/neg (C01 lemmas, re-proved on regenerated code)",
+    "XFieldElement enters ntt.rs only through +, - and *= BFieldElement; the model's xadd/xsub/xscale are component-wise "
+    "base-field operations (coq/model/XField.v, tied by C01's correspondence), so the extension-field theorems are "
+    "unconditional and coordinate-wise (dft3 over Fp^3 with Fp twiddles); no field structure of the extension is used",
+    "statement vocabulary: spec/Dft.v (dft, idft, dft3, bitrev_list), lib/FieldTheory.v (fieldK, Fp, fp_field)",
 ]
 ASSUMPTIONS = [
-    "slice lengths above 2^20 are not executed on either side (covered by the theorem only); n = 2^32 cannot be allocated",
-    "the private ntt_unchecked is reachable only through ntt/intt (consistent log2)",
+    "theorem hypotheses: vector entries are canonical Montgomery words (Forall canon / okX) - what every value built "
+    "through BFieldElement::new / the arithmetic operators is (C01 closure theorems)",
+    "slice lengths above 2^20 are not executed on either side (covered by the theorems, which hold for all k <= 31); "
+    "n = 2^32 cannot be allocated (C06_ntt_panics_too_long is model-level only)",
+    "the private ntt_unchecked is reachable only through ntt/intt (consistent log2); its index panics are modelled "
+    "(None) but unreachable",
+    "ntt_noswap/intt_noswap on the empty slice differ between release (identity) and checked (debug_assert panic) "
+    "builds: both outcomes are modelled (dbg flag) and compared per profile",
 ]
 RULE = ("per size 2^k: unit vectors (all positions for n <= 32, sampled beyond; for the extension field in each of the three "
         "coefficients), all-ones, boundary-valued (grid) and LCG-random vectors through ntt, intt, ntt_noswap, intt_noswap, "
